@@ -107,6 +107,10 @@ def adapt(hist, kind, keymap, rng, freeze):
         if e["ev"] == "put" and frozen:
             continue
         ops.append(e)
+        if kind in ("cm", "memdb") and rng.random() < 0.25:
+            ops.append({"ev": "visit"})
+    if kind in ("cm", "memdb"):
+        ops.append({"ev": "visit"})
     return ops
 
 
@@ -206,7 +210,7 @@ def run(ctx):
     for bname, tags, five in builds:
         offs = offsets(five)
         script = os.path.join(ctx.out, "script-%s.ndjson" % bname)
-        scale = 8 if th else (0.35 if five else 0.7)
+        scale = 6 if th else (0.35 if five else 0.7)
         # executions per kind: (TLC histories of length 3, TLC witnesses, random long histories)
         plan = {"cm": (400, 150, 80), "mem": (150, 100, 60), "sorted": (60, 60, 40), "ldb": (40, 40, 20),
                 "memdb": (60, 40, 20)}
@@ -276,7 +280,7 @@ def run(ctx):
                 "frozen into a SortedFileNeedleMap) x (history: all TLC histories of length 3 over 3 keys x 2 offsets "
                 "x 2 sizes; one TLC witness per (map, counters, last op) to depth 4-5; seeded random histories of "
                 "length 8-30 over all tokens), default and 5BytesOffset builds; after every operation every token "
-                "key is looked up and the five counters are read; close/reopen and reopen-after-deleting-derived-"
+                "key is looked up and the five counters are read; CompactMap/MemDb are also walked with AscendingVisit; close/reopen and reopen-after-deleting-derived-"
                 "files are operations; non-trivial = contains a delete or reload; distinct by hash of the "
                 "recorded execution")
     ctx.exhaustive = True
